@@ -27,7 +27,7 @@ MStep ==
                                   /\ LET s == IF r \in Reqs THEN NextSt(r) ELSE StatusId(r, 9) IN
                                      Update(d, r, s) /\ Op([op |-> "Update", d |-> d, r |-> r, st |-> s])
      \/ \E d, d2 \in DAGs : d # d2 /\ open \notin RunsOf(d) /\ Rename(d, d2) /\ Op([op |-> "Rename", d |-> d, to |-> d2])
-     \/ \E d \in DAGs, days \in {0, 7} : open \notin RunsOf(d) /\ RemoveOld(d, days) /\ Op([op |-> "RemoveOld", d |-> d, days |-> days])
+     \/ \E d \in DAGs, days \in {0, 7, 150000} : open \notin RunsOf(d) /\ RemoveOld(d, days) /\ Op([op |-> "RemoveOld", d |-> d, days |-> days])
      \/ \E r \in Reqs : r # open /\ runs[r].age = 0 /\ SetAge(r, 30) /\ Op([op |-> "SetAge", r |-> r, age |-> 30])
 MNext == Finish \/ MStep
 MSpec == MInit /\ [][MNext]_mvars
